@@ -214,9 +214,9 @@ private:
         return *prop;
     }
     GeometryKernelT<VecT> make_prop() {
-        auto prop = this->template create_shared_property<VecT, Entity::Vertex>("ovm:position", VecT(0));
-        assert(prop.has_value());
-        return *prop;
+        // get-or-create: when the position property of the source mesh is
+        // persistent, ResourceManager's copy has already cloned it
+        return this->template request_property<VecT, Entity::Vertex>("ovm:position", VecT(0));
     }
 
 private:
